@@ -22,6 +22,11 @@ import CtrlVerif.Props.C19Gen
 #print axioms CtrlVerif.C19.params_protocol
 #print axioms CtrlVerif.C19.params_code_counterexample
 #print axioms CtrlVerif.C19.params_code_ok_unless_bare_call
+#print axioms CtrlVerif.C19.memo_empty_sound
+#print axioms CtrlVerif.C19.memo_call_spec
+#print axioms CtrlVerif.C19.memo_run_sound
+#print axioms CtrlVerif.C19.memo_history_independent
+#print axioms CtrlVerif.C19.memo_partial_key_counterexample
 #print axioms CtrlVerif.C19Gen.generated_checkDeprecation_eq
 #print axioms CtrlVerif.C19Gen.generated_missing_eq
 #print axioms CtrlVerif.C19Gen.generated_getitem_eq
